@@ -520,7 +520,7 @@ func (w *World) boot(img *Image) {
 	s.VerifWorker().AddPlugin(&capPlugin{c: w.cap, typ: "http"})
 	s.VerifWorker().AddPlugin(&capPlugin{c: w.cap, typ: "poll"})
 
-	st, err := sqlite.New(w.aio, w.metrics, &sqlite.Config{Size: 10, BatchSize: 10, Path: w.dsn, TxTimeout: 10 * time.Second, Reset: w.Cfg.StoreReset})
+	st, err := sqlite.New(w.aio, w.metrics, &sqlite.Config{Size: 10, BatchSize: 10, Path: w.dsn, TxTimeout: time.Hour, Reset: w.Cfg.StoreReset})
 	if err != nil {
 		panic(fmt.Sprintf("verif: sqlite.New: %v", err))
 	}
